@@ -52,7 +52,7 @@ TRUSTED = [
 ]
 ASSUMPTIONS = [
     "one machine, one numpy/numba/scipy build: reproducibility across platforms or library versions is not claimed",
-    "float fields (alpha, log_p_one) are compared bit-for-bit first; a difference below 1e-9 relative is recorded as round-off only, above it is a failure",
+    "float fields (alpha, log_p_one) are compared bit for bit: the claim is reproducibility of a rerun on the same machine, and the unchanged code meets it; a difference below 1e-9 relative is tagged ':roundoff' in the signature but still fails",
     "the prefix check for --max-time is made with burnin 1 (a longer burn-in cut short by the clock legitimately changes the start tree)",
     "seeded runs only: instantiate_and_seed_RNG(None) is unseeded by design",
 ]
@@ -268,8 +268,9 @@ def fnum(h):
 
 
 def compare_traces(a, b, prefix=False):
-    """None when equal (or `b` is a prefix of `a` when prefix=True); else (field, index, detail).
-    Float fields: bit-equal, else within FLOAT_TOL relative -> reported through the second return value."""
+    """(None, 0) when equal (or `b` is a prefix of `a` when prefix=True); else ((field, index, detail), 0).
+    Float fields are compared bit for bit (hex form): a seeded rerun on the same machine must reproduce them exactly;
+    a difference within FLOAT_TOL relative is tagged `:roundoff` (order-of-summation dependence), it is still a failure."""
     roundoff = 0
     if prefix:
         if len(b) > len(a) or len(b) == 0:
@@ -283,10 +284,8 @@ def compare_traces(a, b, prefix=False):
         for field in ("alpha", "log_p_one"):
             if x[field] != y[field]:
                 fa, fb = fnum(x[field]), fnum(y[field])
-                if math.isfinite(fa) and math.isfinite(fb) and abs(fa - fb) <= FLOAT_TOL * max(1.0, abs(fa)):
-                    roundoff += 1
-                else:
-                    return (field, i, {"a": fa, "b": fb}), roundoff
+                small = math.isfinite(fa) and math.isfinite(fb) and abs(fa - fb) <= FLOAT_TOL * max(1.0, abs(fa))
+                return (field + (":roundoff" if small else ""), i, {"a": fa, "b": fb, "a_hex": x[field], "b_hex": y[field]}), roundoff
     return None, roundoff
 
 
@@ -339,7 +338,7 @@ def check_run(ctx, case):
 
     ctx.stat(f"chains_{k}")
     ctx.stat("proposal_" + o["proposal"])
-    ctx.stat("outliers_on" if o["outlier_prob"] > 0 else "outliers_off")
+    ctx.stat("outliers_on" if (o["outlier_prob"] > 0 or o["assign_loss_prob"]) else "outliers_off")
     ctx.stat("conc_update_on" if o["concentration_update"] else "conc_update_off")
     ctx.stat(f"mutations_{len({r[0] for r in case['rows']})}")
     if o["subtree_update_prob"] > 0:
@@ -387,11 +386,16 @@ def check_run(ctx, case):
     if full:
         b0 = full[0]
         base = {e[0]: e[2] for e in usable[b0]["results"]}
+        base_samples = {e[0]: e[3] for e in usable[b0]["results"]}
         for i in full[1:] + limited:
             pref = variants[i]["max_time"] is not None
-            for key, _, tr, _ in usable[i]["results"]:
+            for key, _, tr, smp in usable[i]["results"]:
                 if key not in base:
                     continue
+                if smp != base_samples[key]:
+                    ctx.oracle_fail(case, f"chain {key}: same seed, different sample order in the result", site, "samples-differ",
+                                    {"executions": [describe(variants[b0]), describe(variants[i])], "a": base_samples[key], "b": smp})
+                    break
                 diff, ro = compare_traces(base[key], tr, prefix=pref)
                 roundoff_total += ro
                 ctx.stat("prefix_checks" if pref else "trace_comparisons")
